@@ -126,6 +126,22 @@ def timeout_drops(prefix, base, ks=range(2, 5)):
     return out
 
 
+def direct_mode(prefix, rng, n, comps, wfams):
+    """DirectlyPublishQoS0: QoS 0 publishes bypass the queue (and must not be submitted before the first connection
+    exists: the option hands them to the current client); everything else behaves as in the default mode."""
+    out = []
+    for sc in sampled(prefix, rng, n, comps, wfams, connacks=KEPT + [[]] * 4, optgen=lambda r: {"directQoS0": True, "deliverOnRel": r.random() < 0.5}):
+        for r in sc["reqs"]:
+            if r["k"] == "pub" and r.get("q", 0) == 0 and r.get("at") not in ("conn", "idle"):
+                r["at"] = "conn"      # (before the first SetClient the option dereferences a nil client: observation in DESIGN.md 13.6)
+            # a direct publish is written by the submitting goroutine itself: it cannot also be the one that waits at
+            # a gate inside a write
+            if str(r.get("at", "")).startswith("write:"):
+                r["at"] = "conn"
+        out.append(sc)
+    return out
+
+
 KEPT = [[], [{"code": 5}, {}], [{}, {"code": 3}], [{}, {"silent": True}]]        # connack plans that never lose the session
 LOST = [[{}, {"sp": "false"}], [{}, {}, {"sp": "false"}], [{}, {"sp": "false"}, {"sp": "false"}]]
 
@@ -141,6 +157,8 @@ def scenarios_for(pid, tier, rng, comps):
                       optgen=lambda r: {"deliverOnRel": r.random() < 0.5, "alwaysResub": r.random() < 0.2})
         sc += handshake_submits("c01h", [PUB(1), SUB(("s", 1))], [PUB(1), PUB(2), SUB(("x", 1)), UNSUB("x")])
         sc += deep_switch("c01d", [PUB(0), PUB(1), PUB(2), SUB(("s", 1))], [PUB(1), PUB(2), SUB(("x", 1)), UNSUB("x")])
+        sc += sampled("c01p", rng, n // 5, comps, ["w_pub", "w_sub", "w_mixed"], connacks=KEPT + [[]] * 4, optgen=lambda r: {"promptAcks": True})
+        sc += direct_mode("c01x", rng, n // 5, comps, ["w_pub", "w_mixed"])
         sc += timeout_drops("c01t", [[PUB(1)], [PUB(2)], [SUB(("x", 1))], [UNSUB("x")], [SUB(("x", 1)), UNSUB("x"), PUB(1)]])
     elif pid == "C02":
         q2 = [w for w in comps["w_pub"] if any(r["q"] == 2 for r in w)]
@@ -149,11 +167,35 @@ def scenarios_for(pid, tier, rng, comps):
         comps2 = dict(comps, w_q2=q2, w_q2m=[w for w in comps["w_mixed"] if any(r["k"] == "pub" and r["q"] == 2 for r in w)])
         sc += sampled("c02r", rng, n, comps2, ["w_q2", "w_q2", "w_q2m"], connacks=KEPT + [[]] * 4,
                       optgen=lambda r: {"deliverOnRel": r.random() < 0.5})
+        # re-subscription (AlwaysResubscribe, session kept) interleaved with unfinished QoS 2 exchanges, also failing itself
+        i = 0
+        for w in ([SUB(("s", 1)), PUB(2)], [SUB(("s", 1)), PUB(2), PUB(2)], [SUB(("s", 1), ("t2", 0)), PUB(1), PUB(2)]):
+            for f1 in ("cutBefore", "cutAfter"):
+                for k1 in (3, 4):
+                    for f2 in (None, "cutBefore", "cutAfter"):
+                        fl = [{"k": k1, "o": f1}] + ([{"p": "SUBSCRIBE", "n": 2, "o": f2}] if f2 else [])
+                        for m in (False, True):
+                            sc.append(rf.scenario("c02a-%d" % i, w, ["conn"] * len(w), fl, opts={"alwaysResub": True, "deliverOnRel": m}))
+                            i += 1
         sc += deep_switch("c02d", [PUB(0), PUB(2)], [PUB(2)])
         sc += timeout_drops("c02t", [[PUB(2)], [PUB(2), PUB(2)], [PUB(1), PUB(2)]], ks=range(2, 6))
     elif pid == "C03":
         sc += single_faults("c03s", [w for w in comps["w_pub"] if len(w) == 2] + ([] if q else small("w_mixed", 2)))
         sc += handshake_submits("c03h", [PUB(1), PUB(2)], [PUB(0), PUB(1), PUB(2), SUB(("x", 1))])
+        i = 0
+        for a in (PUB(1), PUB(2)):
+            for o in ("cutBefore", "cutAfter"):
+                for at3 in ("write:4", "write:5", "connopt:3"):
+                    for late in (False, True):
+                        fl = [{"k": 2, "o": o}] + ([{"k": 4, "o": "lateAck"}] if late else [])
+                        g = rf.scenario("c03g-%d" % i, [a, PUB(1), PUB(1)], ["conn", "dial:2", at3], fl)
+                        # the writer stays held a little longer: the third request is picked up by the task goroutine meanwhile
+                        g["reqs"].append({"k": "sleep", "ms": 3, "at": at3})
+                        sc.append(g)
+                        i += 1
+                        sc.append(rf.scenario("c03g-%d" % i, [a, PUB(1), PUB(1)], ["conn", "dial:2", "idle"], fl + [{"k": 5, "o": "lateAck"}]))
+                        i += 1
+        sc += direct_mode("c03x", rng, n // 5, comps, ["w_pub", "w_mixed"])
         sc += sampled("c03r", rng, n, comps, ["w_pub", "w_mixed", "w_mixed"], connacks=KEPT + [[]] * 4 + (LOST if not q else []),
                       optgen=lambda r: {"deliverOnRel": r.random() < 0.3})
     elif pid == "C08":
@@ -162,6 +204,16 @@ def scenarios_for(pid, tier, rng, comps):
                                 ks=range(2, 6), connacks=ca)
         sc += sampled("c08r", rng, n, comps, ["w_sub"], connacks=LOST + LOST + KEPT + [[]],
                       optgen=lambda r: {"alwaysResub": r.random() < 0.3, "epilogueLoseSession": r.random() < 0.5})
+        # a broker that grants less than was requested (MQTT 3.8.4): what the client re-subscribes after a session loss is
+        # still what the application asked for
+        i = 0
+        for cap in (0, 1):
+            for w in ([SUB(("x", 2))], [SUB(("x", 1), ("y", 2))], [SUB(("x", 2)), SUB(("y", 1)), UNSUB("y")], [SUB(("x", 2)), PUB(1)]):
+                for fl in ([], [{"k": 2, "o": "cutAfter"}], [{"k": 3, "o": "cutAfter"}]):
+                    for ar in (False, True):
+                        sc.append(rf.scenario("c08g-%d" % i, w, ["conn"] * len(w), fl, connacks=[] if ar else LOST[0],
+                                              opts={"grantCap": cap, "alwaysResub": ar, "epilogueLoseSession": not ar}))
+                        i += 1
         sc += timeout_drops("c08t", [[SUB(("x", 1)), UNSUB("x")], [SUB(("x", 1)), SUB(("y", 2)), UNSUB("y")], [UNSUB("x"), SUB(("x", 2))]])
         # book-keeping of established subscriptions: the same single-fault core, followed by a broker restart
         sc += single_faults("c08e", [w for w in small("w_sub", 2) if len(w) == 2][(1 if q else 0)::(3 if q else 1)], ks=range(2, 5),
@@ -172,6 +224,7 @@ def scenarios_for(pid, tier, rng, comps):
         sc += sampled("c12r", rng, n, comps3, ["w_pub", "w_mixed"], connacks=KEPT + [[]] * 4,
                       optgen=lambda r: {"deliverOnRel": r.random() < 0.5})
         sc += deep_switch("c12d", [PUB(1), PUB(2)], [PUB(1), PUB(2)])
+        sc += direct_mode("c12x", rng, n // 5, comps, ["w_pub", "w_mixed"])
         sc += timeout_drops("c12t", [[PUB(1)], [PUB(2)], [PUB(2), PUB(1)]], ks=range(2, 6))
         # retained messages: the flag survives retransmission and the client's queued copy (deferred first transmission)
         R = lambda qq: PUB(qq, retain=True)  # noqa: E731
